@@ -10,6 +10,7 @@ import (
 	"github.com/bluenviron/mediamtx/internal/counterdumper"
 	"github.com/bluenviron/mediamtx/internal/logger"
 	"github.com/bluenviron/mediamtx/internal/unit"
+	"github.com/bluenviron/mediamtx/internal/verifhook"
 )
 
 // OnDataFunc is the callback passed to OnData().
@@ -116,6 +117,8 @@ func (r *Reader) runInner() error {
 		if !ok {
 			return fmt.Errorf("terminated")
 		}
+
+		verifhook.Point("stream.reader.beforeCallback")
 
 		err := cb.(func() error)()
 		if err != nil {
